@@ -76,10 +76,14 @@ Tick == /\ ~ticked /\ ticked' = TRUE /\ unsaved' = {} /\ res' = R("tick", {}) /\
 \* clean shutdown and a new process: nothing selected
 Restart == /\ cur' = "" /\ unsaved' = {} /\ res' = R("restart", {}) /\ UNCHANGED <<dbs, content>>
 
+\* the process dies (nothing is closed or flushed) and a new one starts: every statement that returned had its
+\* records fsynced, so recovery of every database restores exactly the promise
+CrashRestart == /\ cur' = "" /\ unsaved' = {} /\ res' = R("crash", {}) /\ UNCHANGED <<dbs, content>>
+
 SessNext == \/ Tick
             \/ /\ ticked' = FALSE
                /\ \/ \E n \in Names : CreateDb(n) \/ Use(n)
-                  \/ Show \/ CreateTable \/ Restart
+                  \/ Show \/ CreateTable \/ Restart \/ CrashRestart
                   \/ \E v \in Vals : Insert(v) \/ Delete(v)
 
 -----------------------------------------------------------------------------
@@ -90,5 +94,5 @@ Isolation == [][\A d \in dbs : d # cur => content'[d] = content[d]]_sessVars
 \* failing statements change nothing
 ErrorsChangeNothing == [][res'.k = "error" => UNCHANGED <<dbs, cur, content>>]_sessVars
 \* ticks and restarts change no content
-PausesChangeNothing == [][res'.k \in {"tick", "restart"} => UNCHANGED <<dbs, content>>]_sessVars
+PausesChangeNothing == [][res'.k \in {"tick", "restart", "crash"} => UNCHANGED <<dbs, content>>]_sessVars
 =============================================================================
